@@ -44,6 +44,25 @@ class D(RenderDriver):
         from picomon.ref import render as RR, stroke as RSK
 
         p = mismatch[0]
+        # known mechanism (kind 1, bug simulation): a use target that inherits a numeric stroke property spelled
+        # unlike the converter's own number format gets it as an explicit attribute; the instances then carry the
+        # value of the target's original context
+        try:
+            root = (meta or {}).get("root") or gd.from_xml(doc)
+            sim = gd.simulate_inherited_made_explicit(root)
+            if sim is not None:
+                import random as _random
+
+                from picomon import conv as _conv
+
+                ssrc, sdst = RR.build(gd.to_xml(sim)), RR.build(out)
+                eps_ = self.eps_frac * max(ssrc.viewbox[2], ssrc.viewbox[3])
+                pts = _conv.sample_points(ssrc, _random.Random(5), eps=eps_) + [p]
+                st = _conv.compare_colors(ssrc, sdst, pts, eps_, self.color_tol, self.steep_probe)
+                if st["mismatch"] is None and st["kept"] >= 30:
+                    return "inherited-value-made-explicit-on-use-target"
+        except Exception:
+            pass
         try:
             src, dst = RR.build(doc), RR.build(out)
             eps = self.eps_frac * max(src.viewbox[2], src.viewbox[3])
